@@ -464,7 +464,20 @@ def _returns_tracker_best(ctx: Ctx, f: FunctionInfo, v: Optional[ast.AST], depth
         return None
     if isinstance(v, ast.Subscript) and isinstance(v.value, ast.Name):
         return None
+    if isinstance(v, ast.Call) and not _mentions_tracker(v):
+        # a value computed by a function from arguments that do not involve the tracker (the current population, a local list):
+        # unless the function itself consults a tracker, it cannot be the best of everything evaluated so far
+        callee = None
+        if isinstance(v.func, ast.Name):
+            full = ctx.prog.resolve_name(f.module, v.func.id)
+            callee = ctx.prog.functions.get(full) if full else None
+        if callee is not None and not any(_mentions_tracker(x) for x in ast.walk(callee.node)):
+            return False
     return None
+
+
+def _mentions_tracker(e: ast.AST) -> bool:
+    return any((isinstance(x, ast.Name) and "tracker" in x.id.lower()) or (isinstance(x, ast.Attribute) and "tracker" in x.attr.lower()) for x in ast.walk(e))
 
 
 def rule_r3(ctx: Ctx) -> int:
@@ -477,7 +490,8 @@ def rule_r3(ctx: Ctx) -> int:
             n += 1
             ok = _returns_tracker_best(ctx, f, r.value)
             ctx.ob("C12.R3", f, r, f"search returns {norm(r.value) if r.value is not None else 'None'}"[:80], ok,
-                   "" if ok else ("search() returns something other than the tracker's best individual" if ok is False else
+                   "" if ok else ("search() returns something other than the tracker's best individual (e.g. the best of the current population: an "
+                                  "individual evaluated earlier that has dropped out of the population can be strictly better)" if ok is False else
                                   "cannot establish that the returned value is the tracker's best"))
     ctx.floor("C12.R3", n, 4, "return statements of search() implementations")
     return n
